@@ -111,6 +111,10 @@ def cases(tier, seed):
         p.update(max_iter=int(r.randint(2, 7)))
         if zero:
           p['tol'] = 1e10
+      # (progress output is a configuration like any other: it must not
+      # alter what is computed)
+      if i % 5 == 2:
+        p['verbose'] = True
       out.append({'est': name, 'params': p, 'zero': zero,
                   'duplicates': bool(i % 4 == 1),
                   'ds': {'seed': int(r.randint(2**31 - 1)), 'd': d,
